@@ -124,6 +124,10 @@ def cases(tier, seed):
                 yield ['realorder', list(perm), [N, v]]
     for N in (1, 2):
         yield ['realorder', ['A', 'B', 'C'], [N, 0]]
+    # layer names that are not plain identifiers, in children (shared with C03)
+    for pair in (['a.b', 'a_b'], ['x[y]', 'p+q'], ['a|b', 'ab'], ['vtw.tests:DB', 'xvtw.tests:DB']):
+        for mode in ('j2', 'j3_layer'):
+            yield ['names', pair, mode]
     # --shuffle: children must use the order of the sequential run
     for sd in range(8 if tier == 'quick' else 64):
         yield ['shuffle', sd, None]
@@ -612,6 +616,12 @@ def run_case(case):
         viol = [{'clause': c, 'sig': s, 'detail': d} for c, s, d in vs]
         return {'evals': evals, 'nontrivial': evals, 'violations': viol, 'outcome': 'realorder', 'nogate': True,
                 'counters': {'real_process_runs': evals}}
+    if case[0] == 'names':
+        from vt.props import c03
+        viol = c03.run_names_case(case[1], case[2])
+        for v in viol:
+            v['sig'] = {'N': 2 if case[2] == 'j2' else 3, 'v': 0, 'cfg': 'names'}
+        return {'evals': 1, 'nontrivial': 1, 'violations': viol, 'outcome': 'names'}
     if case[0] == 'shuffle':
         evals, vs = run_shuffle(case[1])
         viol = [{'clause': c, 'sig': sg, 'detail': d} for c, sg, d in vs]
